@@ -239,7 +239,8 @@ def check(ctx):
 
     # ---- R6
     f = model.func('asn1tools/codecs/compiler.py', 'Compiler.pre_process_tags_type')
-    ps = sem.paths(f)
+    # a helper that selects the kind is looked into; the two predicates the rule is about are kept as they are written
+    ps = sem.paths(f, resolver=sem.class_resolver(f._cls, keep=('is_dummy_reference', 'resolve_type_name')))
     if ps is None:
         raise AnalysisError('pre_process_tags_type: too many paths')
     kind_stores = []
@@ -251,6 +252,8 @@ def check(ctx):
                 for ev2 in p.events:
                     if ev2[0] == 'stmt' and ev2[2] is ev[2]:
                         k = ev2[1]
+                if len(ev) > 4 and isinstance(ev[4], int):
+                    k = ev[4]       # includes the conditions under which a helper selected the stored value
                 kind_stores.append((p, p.conds[:k] if k is not None else p.conds, ev[1].split(' = ', 1)[1]))
     if len(kind_stores) < 3:
         raise AnalysisError('pre_process_tags_type: only %d paths set the tag kind' % len(kind_stores))
